@@ -18,6 +18,7 @@ import (
 	"github.com/hashicorp/consul/internal/verifmc/c10"
 	"github.com/hashicorp/consul/internal/verifmc/c13"
 	"github.com/hashicorp/consul/internal/verifmc/c15"
+	"github.com/hashicorp/consul/internal/verifmc/c18"
 	"github.com/hashicorp/consul/internal/verifmc/c20"
 	"github.com/hashicorp/consul/internal/verifmc/ev"
 )
@@ -39,6 +40,7 @@ var checks = map[string]checkDef{
 	"C10": {"exploration", c10.Run},
 	"C13": {"exploration", c13.Run},
 	"C15": {"exploration", c15.Run},
+	"C18": {"model_checking", c18.Run},
 	"C20": {"fault_enumeration", c20.Run},
 }
 
